@@ -180,7 +180,7 @@ func c18qRun(o *out, input string) {
 	e.mu.Unlock()
 	gs := w.Result().Trailer.Get("Grpc-Status")
 	if gs == "" {
-		gs = w.Header().Get("Grpc-Status")
+		gs = w.Result().Header.Get("Grpc-Status")
 	}
 	if gs == "" {
 		gs = "-"
